@@ -260,6 +260,10 @@ class C17(Check):
             'skymask: the global SPPIXMASK table is switched between the calls of a case (official + 3 hand-written tables with the '
             'sky labels on bits 3/4, 12/30, 28/5 and other labels on 27/28; via set_maskbits(file) or direct assignment), after one '
             'priming call under the official table; expectation from the table current at the call; fixture table restored.  '
+            'x vectors: dtype family {float64, float32, int16/32/64, uint8/16/32/64} drawn independently of the order family '
+            '{ascending, descending, block-swapped, shuffled}, distinct values that fit the dtype (also at the ends of its range, '
+            '|x| < 2^53), expectation from the float64 reference on the same values; median arrays also in float32 and every integer '
+            'dtype; aesthetics invvar also as integer weights.  '
             'Every scalar option is presented per call in one of the scalar kinds a caller has (Python value; numpy int64/int32/'
             'uint8/intp scalar; 0-d array; whole float / numpy.float64 for axis and ngrow; bool / numpy.bool_ / 0-1 int for const and '
             'sticky; float / numpy.float64 / 0-d array / numpy.int64 for lower, upper, maxdev; str / numpy.str_ for method and '
@@ -278,8 +282,13 @@ class C17(Check):
         'undecided (code needs <= 3 roundings, 3e-16)',
         'grow: neighbours are added around points rejected by a residual limit in the same call (IDL djs_reject semantics), '
         'not around points excluded by inmask / sticky outmask; neighbours of points with undecided residual are undecided',
-        'lower/upper are only used together with a supplied sigma or invvar (the internally estimated sigma is not in the '
-        'property); lower, upper >= 0, maxdev > 0; maxrej/groupsize/groupdim/groupbadpix unused; float64 data',
+        'lower/upper are used with a supplied sigma or invvar; the default sigma (neither given: population standard deviation of '
+        'the residual over the points good in inmask and in the outmask passed in) is exercised for 1-D unsigned data only; lower, '
+        'upper >= 0, maxdev > 0; maxrej/groupsize/groupdim/groupbadpix unused',
+        'djs_reject data/model: float64, or BOTH unsigned (uint8/16/32/64 counts, some below the model, values < 2^53; F-J1) with '
+        'lower/upper only - maxdev with integer data raises in `badness +=` on the unchanged tree and is left out; floating or '
+        'signed sigma (an unsigned sigma array with a Python-int limit raises OverflowError); with integer data inmask is bool or uint8 (a signed-integer inmask raises UFuncTypeError in `badness *= inmask`); floating y for maskinterp (n-D '
+        'integer y truncates interpolated values)',
         'sigma == 0 means infinite significance: rejected iff the residual is on the limited side and non-zero',
         'maskinterp: IDL axis k = numpy axis ndim-1-k (as the implementation and DESIGN fix it); x distinct along each line; '
         'interpolated values compared to 1e-9 x max|neighbour values| (np.interp error is a few 1e-16 of that), good samples, '
@@ -316,7 +325,14 @@ class C17(Check):
         'pres_swapped_reject_data', 'pres_swapped_reject_model', 'pres_swapped_reject_sigma', 'pres_swapped_reject_invvar',
         'pres_swapped_reject_inmask', 'pres_swapped_interp_y', 'pres_swapped_interp_mask', 'pres_swapped_interp_x',
         'pres_swapped_aesthetics_flux', 'pres_swapped_aesthetics_invvar', 'pres_swapped_median_a',
+        'reject_unsigned_data_model_calls', 'reject_unsigned_points_below_model', 'reject_default_sigma_calls',
+        'reject_unsigned_dtype_uint8', 'reject_unsigned_dtype_uint16', 'reject_unsigned_dtype_uint32', 'reject_unsigned_dtype_uint64',
         'median_swapped_float_1d_filter_calls', 'median_swapped_float_2d_filter_calls',
+        'interp_x_dtype_float32', 'interp_x_dtype_int16', 'interp_x_dtype_int32', 'interp_x_dtype_int64', 'interp_x_dtype_uint8',
+        'interp_x_dtype_uint16', 'interp_x_dtype_uint32', 'interp_x_dtype_uint64', 'interp_x_unsigned_unsorted_lines',
+        'interp_x_order_asc', 'interp_x_order_desc', 'interp_x_order_block', 'interp_x_order_shuffled',
+        'median_dtype_float32', 'median_dtype_int16', 'median_dtype_int32', 'median_dtype_int64', 'median_dtype_uint8',
+        'median_dtype_uint16', 'median_dtype_uint32', 'median_dtype_uint64', 'aesthetics_integer_invvar_cases',
         'pres_swapped_skymask_invvar', 'pres_swapped_skymask_ormask', 'pres_swapped_skymask_andmask',
     ) + KIND_COUNTERS
 
@@ -480,6 +496,44 @@ class C17(Check):
         case['outmask'] = None
         if rng.random() < (0.9 if cls == 'reject_small_history' else 0.5):
             case['outmask'] = [0 if rng.random() < rng.choice([0.1, 0.3]) else 1 for _ in range(n)]
+        # data AND model both unsigned integers (counts), some points below the model (F-J1): the whole case is rescaled to
+        # counts, shifted to a non-negative level (near 0, mid-range or the top of the dtype), rounded and clipped.
+        # Limits lower/upper only: maxdev with integer data raises in `badness +=` on the unchanged tree (outside the domain).
+        case['data_dtype'] = None
+        case['default_sigma'] = False
+        if rng.random() < 0.15:
+            udt = rng.choice(['uint8', 'uint16', 'uint32', 'uint64'])
+            top = min(int(np.iinfo(udt).max), 2**53)
+            tsig = rng.choice([2.0, 3.0]) if udt == 'uint8' else rng.choice([3.0, 10.0, 40.0])
+            f = tsig / scale
+            spread = int(8 * tsig)
+            level = rng.choice([spread // 4, spread, top // 2, top - spread, top - spread // 4])
+            level = max(0, min(top, level))
+
+            def counts(v):
+                return np.clip(np.rint(np.asarray(v) * f - float(np.median(base)) * f + level), 0, top).tolist()
+            case['data'] = counts(case['data'])
+            case['models'] = [counts(m) for m in case['models']]
+            if isinstance(case['sigma'], list):
+                case['sigma'] = (np.asarray(case['sigma']) * f).tolist()
+            elif case['sigma'] is not None:
+                case['sigma'] = case['sigma'] * f
+            if case['invvar'] is not None and mode != 'both':
+                case['invvar'] = (np.asarray(case['invvar']) / f ** 2).tolist()
+            case['maxdev'] = None
+            if case['lower'] is None and case['upper'] is None:
+                case['upper'] = 3.0
+                case['lower'] = rng.choice([None, 2.5])
+            if cls != 'reject_nd' and (mode == 'none' or rng.random() < 0.3):
+                case['sigma'] = case['invvar'] = None        # default sigma: std of the residual over the good points (1-D)
+                case['default_sigma'] = True
+            elif mode == 'none':
+                case['sigma'] = (sig * f).tolist()
+            case['data_dtype'] = udt
+            if case['inmask_dtype'] == 'int32':
+                # integer data with a SIGNED-integer inmask raises UFuncTypeError in `badness *= inmask` on the unchanged tree
+                # (reported, not asserted); bool and uint8 masks are accepted
+                case['inmask_dtype'] = 'uint8'
         # how the masks travel through the history: fresh copies, the returned array itself handed back as outmask
         # (as iterfit does), or one array serving as inmask and as the first outmask
         case['alias'] = rng.choice(['copy', 'reuse', 'reuse', 'outmask_is_inmask'])
@@ -541,18 +595,42 @@ class C17(Check):
                     y[k] = rng.choice(GARBAGE)
         x = None
         xorder = None
+        xdt = 'float64'
         if rng.random() < 0.5:
-            xorder = rng.choice(['asc', 'desc', 'shuffled', 'shuffled', 'asc_uneven'])
-            xs = unit_scale(rng, -9, 9, lambda: 10.0 ** rng.uniform(-3, 3))                  # x units (spacing)
-            xa = (g.normal(size=n) * xs + rng.choice([0.0, 1000.0 * xs])).reshape(shape)
-            if xorder == 'asc_uneven':
-                xa = np.cumsum(10.0 ** g.uniform(-3, 1, size=n)).reshape(shape) * xs
-                if nd > 1:
-                    xa = np.sort(g.permutation(xa.ravel()).reshape(shape), axis=npaxis)
-            elif xorder == 'asc':
+            # dtype family and order family are drawn independently
+            xdt = rng.choice(['float64'] * 8 + ['float32', 'int16', 'int32', 'int64', 'uint8', 'uint16', 'uint32', 'uint64'])
+            xorder = rng.choice(['asc', 'desc', 'block', 'shuffled', 'shuffled'] + (['asc_uneven'] if xdt == 'float64' else []))
+            if xdt in ('float64', 'float32'):
+                xs = unit_scale(rng, -9, 9, lambda: 10.0 ** rng.uniform(-3, 3))              # x units (spacing)
+                xa = (g.normal(size=n) * xs + rng.choice([0.0, 1000.0 * xs])).reshape(shape)
+                if xorder == 'asc_uneven':
+                    xa = np.cumsum(10.0 ** g.uniform(-3, 1, size=n)).reshape(shape) * xs
+                    if nd > 1:
+                        xa = g.permutation(xa.ravel()).reshape(shape)
+                if xdt == 'float32':
+                    xa = xa.astype(np.float32).astype(np.float64)
+            else:
+                # distinct integers that fit the dtype (|x| < 2**53 so that the float64 reference sees the same values):
+                # a narrow window anywhere in the range (also at its very top / bottom) or the whole range
+                lo, hi = int(np.iinfo(xdt).min), int(np.iinfo(xdt).max)
+                lo, hi = max(lo, -2**53), min(hi, 2**53)
+                if n > hi - lo + 1:
+                    return None
+                if rng.random() < 0.6:
+                    w = min(hi - lo, rng.choice([n, 2 * n, 10 * n + 5]))
+                    start = rng.choice([lo, hi - w, rng.randint(lo, hi - w)])
+                    vals = rng.sample(range(start, start + w + 1), n) if w + 1 >= n else None
+                else:
+                    vals = rng.sample(range(lo, hi + 1), n)
+                if vals is None:
+                    return None
+                xa = np.array(vals, dtype=object).reshape(shape)
+            if xorder in ('asc', 'asc_uneven', 'block'):
                 xa = np.sort(xa, axis=npaxis)
+                if xorder == 'block':
+                    xa = np.roll(xa, shape[npaxis] // 2, axis=npaxis)
             elif xorder == 'desc':
-                xa = -np.sort(-xa, axis=npaxis)
+                xa = np.flip(np.sort(xa, axis=npaxis), axis=npaxis)
             if len(set(xa.ravel().tolist())) != n:
                 return None
             x = xa.ravel().tolist()
@@ -562,7 +640,7 @@ class C17(Check):
         return {'kind': 'interp', 'shape': shape, 'y': y.tolist(), 'mask': mask, 'mask_dtype': mdt, 'x': x,
                 'xorder': xorder, 'axis': axis, 'const': rng.random() < 0.5, 'entry': entry, 'more': more,
                 'const_kind': pick_kind(rng, 'const'), 'axis_kind': 'py' if axis is None else pick_kind(rng, 'axis'),
-                'pres': {k: pick_pres(rng) for k in ('y', 'mask', 'x')}}
+                'pres': {k: pick_pres(rng) for k in ('y', 'mask', 'x')}, 'x_dtype': xdt}
 
     def gen_aesthetics(self, rng):
         g = np_rng(rng)
@@ -581,6 +659,10 @@ class C17(Check):
                 ivar[k] = 0.0                            # exact zeros stay exact zeros
                 if rng.random() < 0.3:
                     flux[k] = rng.choice(GARBAGE)
+        ivdt = None
+        if rng.random() < 0.2:
+            ivdt = rng.choice(['uint8', 'uint16', 'int32', 'int64'])             # integer weights 0, 1, 2, 5 ...
+            ivar = np.where(ivar > 0, g.integers(1, 6, n), 0).astype(float)
         dt = rng.choice(['float64', 'float64', 'float32'])
         if dt == 'float32':
             flux = flux.astype(np.float32).astype(np.float64)
@@ -589,7 +671,7 @@ class C17(Check):
                 'method': rng.choice(['traditional', 'noconst', 'mean', 'nothing']),
                 'more': [rng.choice(['traditional', 'noconst', 'mean', 'nothing']) for _ in range(rng.choice([0, 1, 2]))],
                 'kinds': [pick_kind(rng, 'method') for _ in range(3)],
-                'pres': {k: pick_pres(rng) for k in ('flux', 'invvar')}}
+                'pres': {k: pick_pres(rng) for k in ('flux', 'invvar')}, 'invvar_dtype': ivdt}
 
     def gen_median(self, cls, rng):
         g = np_rng(rng)
@@ -614,8 +696,12 @@ class C17(Check):
             a = g.normal(size=n)
             a[g.uniform(size=n) < 0.15] = 1e6
         dt = 'float64'
-        if cls == 'median_1d' and style == 'ties' and rng.random() < 0.3:
-            dt = 'int64'
+        if style == 'ties' and rng.random() < 0.6:
+            # small non-negative integers fit every dtype; all of these are accepted by the unchanged code
+            dt = rng.choice(['float32', 'int16', 'int32', 'int64', 'uint8', 'uint16', 'uint32', 'uint64'] if cls == 'median_1d'
+                            else ['float32', 'int32', 'uint8', 'uint16'])
+            if dt.startswith('u') or dt.startswith('i'):
+                a = a + rng.choice([0, 0, 250 if dt == 'uint8' else 1000])     # unsigned values above the signed half-range for uint8
         else:
             a = a * unit_scale(rng, -17, 6, lambda: 1.0)                                          # flux units
         wmax = 2 * min(shape) - 1                       # widest window one reflection can fill
@@ -710,6 +796,12 @@ class C17(Check):
         # pristine values: the reference is always computed from these, never from the objects handed to pydl
         data0 = np.array(case['data'], dtype=np.float64).reshape(shape)
         models0 = [np.array(m, dtype=np.float64).reshape(shape) for m in case['models']]
+        udt = case.get('data_dtype')                     # data AND model as unsigned integers (exact: values < 2**53)
+        data_t0 = data0 if udt is None else data0.astype(udt)
+        models_t0 = models0 if udt is None else [m.astype(udt) for m in models0]
+        if udt is not None:
+            assert data_t0.astype(np.float64).tolist() == data0.tolist()
+        default_sigma = bool(case.get('default_sigma'))
         sigma0 = case['sigma']
         if isinstance(sigma0, list):
             sigma0 = np.array(sigma0, dtype=np.float64).reshape(shape)
@@ -727,8 +819,8 @@ class C17(Check):
             prev0 = inmask0.copy()
         # the caller's objects: created once, handed to every call of the history
         P = Presenter(out, 'reject', case.get('pres'))
-        data = P('data', data0)
-        models = [P('model', m) for m in models0]
+        data = P('data', data_t0)
+        models = [P('model', m) for m in models_t0]
         sigma = P('sigma', sigma0) if isinstance(sigma0, np.ndarray) else sigma0
         invvar = P('invvar', invvar0)
         inmask = P('inmask', inmask0)
@@ -778,7 +870,7 @@ class C17(Check):
                 for k in ('sigma', 'invvar'):
                     if isinstance(kwp.get(k), np.ndarray):
                         kwp[k] = (sigma0 if k == 'sigma' else invvar0).copy()
-                pm, pq = self.M.djs_reject(data0.copy(), model0.copy(), outmask=None if prev0 is None else prev0.copy(),
+                pm, pq = self.M.djs_reject(data_t0.copy(), models_t0[mi].copy(), outmask=None if prev0 is None else prev0.copy(),
                                            inmask=None if inmask0 is None else inmask0.copy(), grow=grow, sticky=sticky, **kwp)
                 out.expect(same_result(mask, pm) and bool(qdone) == bool(pq), 'reject-differs-from-plain-call',
                            'scalar options given as %r / arrays presented as %r give a different (mask, qdone) than plain values in plain '
@@ -787,8 +879,22 @@ class C17(Check):
             mask = np.asarray(mask)
             if not out.expect(mask.shape == shape, 'reject-shape', 'mask shape %r for data shape %r' % (mask.shape, shape)):
                 return
-            ref = R.reject_ref(data0, model0, inmask=inmask0, outmask=prev0, sigma=sigma0,
-                               invvar=None if sigma0 is not None else invvar0,
+            sigma_ref = sigma0
+            if default_sigma:
+                # neither sigma nor invvar: sigma = population standard deviation of the residual over the points that are
+                # good in inmask and in the outmask passed in (0 if there is none); 1-D only
+                goodpts = np.ones(shape, dtype=bool) if prev0 is None else (prev0 != 0)
+                if inmask0 is not None:
+                    goodpts = goodpts & (inmask0 != 0)
+                dd = (data0.astype(R.LD) - model0.astype(R.LD))[goodpts]
+                sigma_ref = float(np.sqrt(np.mean((dd - dd.mean()) ** 2))) if dd.size else 0.0
+                out.count('reject_default_sigma_calls')
+            if udt is not None:
+                out.count('reject_unsigned_data_model_calls')
+                out.count('reject_unsigned_points_below_model', int((data0 < model0).sum()))
+                out.count('reject_unsigned_dtype_' + udt)
+            ref = R.reject_ref(data0, model0, inmask=inmask0, outmask=prev0, sigma=sigma_ref,
+                               invvar=None if sigma_ref is not None else invvar0,
                                lower=case['lower'], upper=case['upper'], maxdev=case['maxdev'], grow=grow, sticky=sticky)
             got = ~(mask != 0)
             und = ref['und']
@@ -816,7 +922,7 @@ class C17(Check):
                        'qdone=%r but mask %s relative to the outmask passed in' % (qdone, 'unchanged' if unchanged else 'changed'),
                        changed_at=np.argwhere((mask != 0) != prev_eff)[:10], **det)
             out.count('reject_qdone_true' if unchanged else 'reject_qdone_false')
-            if repeated:
+            if repeated and not default_sigma:           # the default sigma depends on the outmask passed in
                 out.expect(unchanged, 'reject-repeat', 'repeating the call with its own output as outmask changed the mask', **det)
             # counters
             out.count('reject_by_limit_points', ref['n_thr'])
@@ -829,7 +935,7 @@ class C17(Check):
                     out.count('reject_grow_clipped_at_end')
             if ref['n_near']:
                 out.count('reject_near_limit_undecided', ref['n_near'])
-            out.count('reject_near_limit_decided', self._near_count(data0, model0, sigma0, invvar0, case) - ref['n_near'])
+            out.count('reject_near_limit_decided', self._near_count(data0, model0, sigma_ref, invvar0, case) - ref['n_near'])
             if invvar0 is not None and sigma0 is None:
                 out.count('reject_invvar_zero_points', int((invvar0 == 0).sum()))
                 out.count('reject_invvar_below_1e-8_points', int(((invvar0 > 0) & (invvar0 < 1e-8)).sum()))
@@ -881,7 +987,12 @@ class C17(Check):
         nd = len(shape)
         # pristine values for the reference; y / x are the caller's arrays and are handed to EVERY call of the history
         y0 = np.array(case['y'], dtype=np.float64).reshape(shape)
-        x0 = None if case['x'] is None else np.array(case['x'], dtype=np.float64).reshape(shape)
+        xdt = case.get('x_dtype', 'float64')
+        x0 = None if case['x'] is None else np.array(case['x'], dtype=xdt).reshape(shape)      # pristine, in the caller's dtype
+        if x0 is not None:
+            assert x0.astype(np.float64).ravel().tolist() == [float(v) for v in case['x']]
+            out.count('interp_x_dtype_' + xdt)
+            out.count('interp_x_order_' + str(case.get('xorder')))
         P = self._interp_P = Presenter(out, 'interp', case.get('pres'))
         y = P('y', y0)
         x = P('x', x0)
@@ -940,7 +1051,8 @@ class C17(Check):
                        step=step, axis=axis)
             out.count('scalar_kind_calls_compared_with_plain_call')
         guard.check(step=step, axis=axis)
-        x = x_in
+        x = None if x_in is None else x_in.astype(np.float64)        # exact: |x| < 2**53
+        x_in = x
         got = np.asarray(got)
         if not out.expect(got.shape == shape, 'interp-shape', 'result shape %r for input %r' % (got.shape, shape)):
             return False
@@ -971,6 +1083,8 @@ class C17(Check):
                 k[b & ~inner] = 'e'
                 if xm is not None and np.any(np.diff(pos) < 0):
                     out.count('interp_x_unsorted_lines')
+                    if case.get('x_dtype', 'float64').startswith('uint'):
+                        out.count('interp_x_unsigned_unsorted_lines')
 
         def same(a, b):
             return (a == b) | (np.isnan(a) & np.isnan(b))
@@ -1013,7 +1127,9 @@ class C17(Check):
     def run_aesthetics(self, case, out):
         dt = case['dtype']
         f_in = np.array(case['flux'], dtype=np.float64).astype(dt)         # pristine
-        iv_in = np.array(case['invvar'], dtype=np.float64).astype(dt)
+        iv_in = np.array(case['invvar'], dtype=np.float64).astype(case.get('invvar_dtype') or dt)
+        if case.get('invvar_dtype'):
+            out.count('aesthetics_integer_invvar_cases')
         P = Presenter(out, 'aesthetics', case.get('pres'))
         flux, ivar = P('flux', f_in), P('invvar', iv_in)                       # the caller's arrays, used by every call
         good = iv_in != 0
@@ -1071,6 +1187,8 @@ class C17(Check):
             wk, bk = kd.get('width', 'py'), kd.get('boundary', 'py')
             out.count('kind_width_' + wk)
             out.count('kind_boundary_' + bk)
+            if step == 0:
+                out.count('median_dtype_' + case['dtype'])
             if w >= 3 and a.dtype.kind == 'f' and not a.dtype.isnative:
                 out.count('median_swapped_float_%dd_filter_calls' % a.ndim)
             got = np.asarray(self.M.djs_median(a, width=as_kind(w, wk), boundary=as_kind('reflect', bk)))
